@@ -93,6 +93,46 @@ func ruleEffectWrite(c *Ctx, r *Rep) {
 	if len(sites) == 0 {
 		r.Undecided("floor:mutating-calls", "", "no file-mutating call found at all")
 	}
+	// the functions that write or remove refuse a name for one reason only, that it is absolute: every other name the
+	// database hands over (dots, spaces, any depth) names a file below the directory of the run. The conditions in such a
+	// function and in the module functions it calls are tests of an error or of filepath.IsAbs.
+	for _, fn := range sortedFuncs(c, keysOfFuncMap(sites)) {
+		if !implMethods[fn] {
+			continue
+		}
+		group := []*ssa.Function{fn}
+		seenF := map[*ssa.Function]bool{fn: true}
+		for i := 0; i < len(group) && i < 8; i++ {
+			for _, ci := range callsIn(group[i]) {
+				if h := ci.Common().StaticCallee(); h != nil && h.Blocks != nil && c.InModule(h) && !seenF[h] && fnPkgPath(h) == fnPkgPath(fn) {
+					seenF[h] = true
+					group = append(group, h)
+				}
+			}
+		}
+		k := 0
+		for _, f := range group {
+			for _, b := range f.Blocks {
+				iff, ok := lastInstr(b).(*ssa.If)
+				if !ok {
+					continue
+				}
+				cond := iff.Cond
+				if u, isNot := cond.(*ssa.UnOp); isNot && u.Op == token.NOT {
+					cond = u.X
+				}
+				k++
+				okCond, what := false, "another test"
+				if x, _, isNilTest := nilTestOf(iff.Cond, true); isNilTest && isErrorType(x.Type()) {
+					okCond, what = true, "an error test"
+				}
+				if call, isCall := cond.(*ssa.Call); isCall && calleeFullName(call) == "path/filepath.IsAbs" {
+					okCond, what = true, "filepath.IsAbs"
+				}
+				r.Check(okCond, sprintf("refuses-only-absolute|%s#%d", c.FuncKey(fn), k), c.Pos(cond.Pos()), "on the way to the os call a name is refused only for being absolute (conditions are error tests or filepath.IsAbs)", what+" in "+c.FuncKey(f))
+			}
+		}
+	}
 	// a write replaces the file: os.WriteFile and os.Create truncate; an OpenFile that can write must say O_TRUNC
 	// (a shorter new content must not leave the tail of the old one behind, e.g. an old key after the new one)
 	for _, fn := range sortedFuncs(c, keysOfFuncMap(sites)) {
